@@ -4,6 +4,8 @@ import (
 	"fmt"
 	"go/token"
 	"go/types"
+	"math/big"
+	"strings"
 
 	"golang.org/x/tools/go/ssa"
 )
@@ -13,6 +15,42 @@ func fpSortOf(w int) string {
 		return SF32
 	}
 	return SF64
+}
+
+// convInt converts an integer value between Go integer types.
+func convInt(t Term, fw int, fsigned bool, tw int, tsigned bool) Term {
+	if !gInt {
+		return extendTo(t, fw, fsigned, tw)
+	}
+	flo, fhi := typeRange(fw, fsigned)
+	tlo, thi := typeRange(tw, tsigned)
+	if flo.Cmp(tlo) >= 0 && fhi.Cmp(thi) <= 0 {
+		return t
+	}
+	if v, ok := intLitVal(t); ok {
+		m := pow2(tw)
+		r := new(big.Int).Mod(v, m)
+		if tsigned && r.Cmp(pow2(tw-1)) >= 0 {
+			r.Sub(r, m)
+		}
+		return intLitBig(r)
+	}
+	if !tsigned {
+		return Term{SInt, fmt.Sprintf("(mod %s %s)", t.T, pow2(tw).String())}
+	}
+	h := pow2(tw - 1).String()
+	return Term{SInt, fmt.Sprintf("(- (mod (+ %s %s) %s) %s)", t.T, h, pow2(tw).String(), h)}
+}
+
+// arith finishes an arithmetic result in int mode: the mathematical result must fit the type
+// (obligation kind overflow); afterwards the unwrapped value is the Go value.
+func (fr *frame) arith(r Term, w int, signed bool, text string, pos token.Pos) Term {
+	if !gInt {
+		return r
+	}
+	r = fr.ft.c.Define("ar", r)
+	fr.obligeAlways("overflow", text, pos, inTypeRange(r, w, signed))
+	return r
 }
 
 func (fr *frame) binop(x *ssa.BinOp) *Val {
@@ -41,6 +79,8 @@ func (fr *frame) binop(x *ssa.BinOp) *Val {
 			c = mkIte(big, bvInt(w, int64(w)), extendTo(cnt, cw, false, w))
 		}
 		switch {
+		case x.Op == token.SHL && gInt:
+			return mk(fr.arith(app(SBV(w), "bvshl", a.L[0], c), w, signed, ft.e.srcText(x.Pos(), "binop"), x.Pos()))
 		case x.Op == token.SHL:
 			return mk(app(SBV(w), "bvshl", a.L[0], c))
 		case signed:
@@ -54,23 +94,23 @@ func (fr *frame) binop(x *ssa.BinOp) *Val {
 		p, q := a.L[0], b.L[0]
 		switch x.Op {
 		case token.ADD:
-			return mk(app(s, "bvadd", p, q))
+			return mk(fr.arith(app(s, "bvadd", p, q), w, signed, ft.e.srcText(x.Pos(), "binop"), x.Pos()))
 		case token.SUB:
-			return mk(app(s, "bvsub", p, q))
+			return mk(fr.arith(app(s, "bvsub", p, q), w, signed, ft.e.srcText(x.Pos(), "binop"), x.Pos()))
 		case token.MUL:
-			return mk(app(s, "bvmul", p, q))
+			return mk(fr.arith(app(s, "bvmul", p, q), w, signed, ft.e.srcText(x.Pos(), "binop"), x.Pos()))
 		case token.QUO, token.REM:
 			fr.oblige("div0", ft.e.srcText(x.Pos(), "binop"), x.Pos(), mkNot(mkEq(q, bvInt(w, 0))))
 			op := map[bool]map[token.Token]string{true: {token.QUO: "bvsdiv", token.REM: "bvsrem"}, false: {token.QUO: "bvudiv", token.REM: "bvurem"}}[signed][x.Op]
 			return mk(app(s, op, p, q))
 		case token.AND:
-			return mk(app(s, "bvand", p, q))
+			return mk(fr.bitRes(app(s, "bvand", p, q), w, signed))
 		case token.OR:
-			return mk(app(s, "bvor", p, q))
+			return mk(fr.bitRes(app(s, "bvor", p, q), w, signed))
 		case token.XOR:
-			return mk(app(s, "bvxor", p, q))
+			return mk(fr.bitRes(app(s, "bvxor", p, q), w, signed))
 		case token.AND_NOT:
-			return mk(app(s, "bvand", p, app(s, "bvnot", q)))
+			return mk(fr.bitRes(app(s, "bvand", p, app(s, "bvnot", q)), w, signed))
 		case token.EQL:
 			return mk(mkEq(p, q))
 		case token.NEQ:
@@ -148,6 +188,19 @@ func (fr *frame) binop(x *ssa.BinOp) *Val {
 	return ft.freshVal(x.Name(), rt)
 }
 
+// bitRes: in int mode the result of a bit operation modelled by an uninterpreted function is known to lie in the type's range.
+func (fr *frame) bitRes(r Term, w int, signed bool) Term {
+	if !gInt || !strings.Contains(r.T, "uf_bv") {
+		return r
+	}
+	ft := fr.ft
+	ft.c.addPre("intmode", intModePreamble)
+	v := ft.c.Fresh("bit", SInt)
+	ft.c.Assume(v, mkEq(v, r))
+	ft.c.Assume(v, inTypeRange(v, w, signed))
+	return v
+}
+
 func (fr *frame) valEq(a, b *Val) Term {
 	if len(a.L) != len(b.L) {
 		return fr.ft.c.Fresh("eq", SBool)
@@ -192,8 +245,9 @@ func (fr *frame) strEq(a, b *Val) Term {
 	ft.c.Assume(e, mkImp(e, mkEq(a.strLen(), b.strLen())))
 	ft.c.Assume(e, mkImp(mkAnd(mkEq(a.strLen(), b.strLen()), mkEq(a.strArr(), b.strArr()), mkEq(a.strOff(), b.strOff())), e))
 	k := ft.c.BoundVar("k")
-	q := ft.c.Quant(false, k, SIdx, Term{SBool, fmt.Sprintf("(=> (bvult %s %s) (= (select %s (bvadd %s %s)) (select %s (bvadd %s %s))))",
-		k, a.strLen().T, a.strArr().T, a.strOff().T, k, b.strArr().T, b.strOff().T, k)})
+	kt := Term{SIdx, k}
+	q := ft.c.Quant(false, k, SIdx, mkImp(idxInRange(kt, a.strLen()),
+		mkEq(mkSelect(a.strArr(), app(SIdx, "bvadd", a.strOff(), kt)), mkSelect(b.strArr(), app(SIdx, "bvadd", b.strOff(), kt)))))
 	ft.c.Assume(e, mkImp(e, q))
 	return e
 }
@@ -207,14 +261,21 @@ func (fr *frame) unop(x *ssa.UnOp) *Val {
 	case token.NOT:
 		return &Val{T: x.Type(), L: []Term{mkNot(a.L[0])}}
 	case token.SUB:
-		if w, _, ok := isIntType(x.Type()); ok {
-			return &Val{T: x.Type(), L: []Term{app(SBV(w), "bvneg", a.L[0])}}
+		if w, signed, ok := isIntType(x.Type()); ok {
+			return &Val{T: x.Type(), L: []Term{fr.arith(app(SBV(w), "bvneg", a.L[0]), w, signed, "-x", x.Pos())}}
 		}
 		if w, ok := isFloatType(x.Type()); ok {
 			return &Val{T: x.Type(), L: []Term{app(fpSortOf(w), "fp.neg", a.L[0])}}
 		}
 	case token.XOR:
-		if w, _, ok := isIntType(x.Type()); ok {
+		if w, signed, ok := isIntType(x.Type()); ok {
+			if gInt {
+				// ^x = -x-1 (signed) or 2^w-1-x (unsigned)
+				if signed {
+					return &Val{T: x.Type(), L: []Term{{SInt, fmt.Sprintf("(- (- %s) 1)", a.L[0].T)}}}
+				}
+				return &Val{T: x.Type(), L: []Term{{SInt, fmt.Sprintf("(- %s %s)", new(big.Int).Sub(pow2(w), big.NewInt(1)).String(), a.L[0].T)}}}
+			}
 			return &Val{T: x.Type(), L: []Term{app(SBV(w), "bvnot", a.L[0])}}
 		}
 	case token.ARROW:
@@ -239,7 +300,7 @@ func (fr *frame) convert(xv ssa.Value, to types.Type, pos token.Pos) *Val {
 	rm := "RNE"
 	switch {
 	case fint && tint:
-		return &Val{T: to, L: []Term{extendTo(a.L[0], fw, fsigned, tw)}}
+		return &Val{T: to, L: []Term{convInt(a.L[0], fw, fsigned, tw, tsigned)}}
 	case fint && tfl:
 		op := "to_fp_unsigned"
 		if fsigned {
@@ -249,6 +310,9 @@ func (fr *frame) convert(xv ssa.Value, to types.Type, pos token.Pos) *Val {
 		if tfw == 32 {
 			eb, sb = 8, 24
 		}
+		if gInt {
+			return &Val{T: to, L: []Term{{fpSortOf(tfw), fmt.Sprintf("((_ to_fp %d %d) %s (to_real %s))", eb, sb, rm, a.L[0].T)}}}
+		}
 		return &Val{T: to, L: []Term{{fpSortOf(tfw), fmt.Sprintf("((_ %s %d %d) %s %s)", op, eb, sb, rm, a.L[0].T)}}}
 	case ffl && tint:
 		op := "fp.to_ubv"
@@ -257,6 +321,9 @@ func (fr *frame) convert(xv ssa.Value, to types.Type, pos token.Pos) *Val {
 		}
 		// Go: result is implementation-defined when out of range; obligation kind conv-range guards it.
 		r := Term{SBV(tw), fmt.Sprintf("((_ %s %d) RTZ %s)", op, tw, a.L[0].T)}
+		if gInt {
+			r = Term{SInt, fmt.Sprintf("(to_int (fp.to_real (fp.roundToIntegral RTZ %s)))", a.L[0].T)}
+		}
 		lo, hi := fpRangeFor(ffw, tw, tsigned)
 		fr.oblige("conv-range", ft.e.srcText(pos, "call"), pos, mkAnd(app(SBool, "fp.gt", a.L[0], lo), app(SBool, "fp.lt", a.L[0], hi)))
 		return &Val{T: to, L: []Term{r}}
